@@ -53,6 +53,61 @@ def step (st : Worker.St) (toks : List String) : Worker.St × String :=
   | ["ext", "filter", q, keep] => match q.toNat?, natList? keep with
     | some q, some keep => extItems st q (fun its => Queue.filter its (fun x => keep.contains x))
     | _, _ => (st, "bad-op")
+  | "convkube" :: args =>
+    -- the version-1 converter of a kubernetes binding: queue / waitForSynchronization from the two keys as written
+    match kv? "q" args, kv? "wfs" args with
+    | some q, some w =>
+      let r := Routing.convKube (if q == "-" then "" else q) (if w == "-" then "" else w)
+      (st, s!"{if r.1 == "" then "<empty>" else r.1}/{r.2}")
+    | _, _ => (st, "bad-op")
+  | "oracle" :: "compacted" :: args =>
+    -- the handler of queue q dropped the tasks `drop` from its queue (Filter) while the consumer delivered
+    -- `ts` (whatever the interleaving of the two): the queue holds its old tasks that were not dropped, in
+    -- their old order, followed by the delivered tasks named q in receive order
+    match (kv? "q" args).bind String.toNat?, (kv? "before" args).bind Worker.items?, (kv? "drop" args).bind natList?,
+          (kv? "ts" args).bind Worker.pairs?, (kv? "after" args).bind Worker.items? with
+    | some q, some before, some drop, some ts, some after =>
+      let kept := before.filter fun x => match x with
+        | some t => !(drop.contains t)
+        | none => true
+      let want := kept ++ (ts.filter (·.1 == q)).map (fun x => some x.2)
+      (st, if after == want then "true" else s!"false want={Worker.showItems want}")
+    | _, _, _, _, _ => (st, "bad-op")
+  | "oracle" :: "orderkept" :: args =>
+    -- queues run dry: the executions of a queue are its arrivals in receive order, minus the tasks a
+    -- handler dropped from the queue (combined into the task it was running)
+    match (kv? "q" args).bind natList?, (kv? "drop" args).bind natList?, (kv? "ev" args).bind Worker.trace? with
+    | some qs, some drop, some log =>
+      let bad := qs.filter fun q =>
+        Worker.dedupAdj (ShellOp.Worker.starts q log) != (ShellOp.Worker.arrivals q log).filter (fun t => !(drop.contains t))
+      (st, if bad.isEmpty then "true" else s!"false execution-order-differs-from-arrival-order-in-queues-{showNats bad}")
+    | _, _, _ => (st, "bad-op")
+  | "oracle" :: "untouched" :: args =>
+    -- a hook execution that is not a task of any queue (admission / conversion request, answered by the
+    -- webhook goroutine) ran: queue q holds exactly what it held before
+    match kv? "q" args, (kv? "before" args).bind Worker.items?, (kv? "after" args).bind Worker.items? with
+    | some q, some before, some after =>
+      (st, if after == before then "true" else s!"false queue-{q}-changed-by-a-request-that-is-not-its-task")
+    | _, _, _ => (st, "bad-op")
+  | ["filterdeliver", q, keep, ts] =>
+    -- handlerFilter, then one pass of the consumer (the queue lock serialises the two)
+    match q.toNat?, natList? keep, Worker.pairs? ts with
+    | some q, some keep, some ts =>
+      match ShellOp.Worker.step st.cfg st.s (.handlerFilter q 0 keep) with
+      | some s1 => Worker.apply { st with s := s1 } (.deliver ts)
+      | none => (st, "disabled " ++ Worker.obs st.s)
+    | _, _, _ => (st, "bad-op")
+  | ["godeliver", q, ts] =>
+    -- one pass of the consumer, then the worker's step: appends at the tail commute with what the worker does
+    -- at the head (the queue is not empty, or the step only applies a plain result)
+    match q.toNat?, Worker.pairs? ts with
+    | some q, some ts =>
+      match ShellOp.Worker.step st.cfg st.s (.deliver ts) with
+      | some s1 => match Worker.advance st.cfg s1 q .step with
+        | some s' => ({ st with s := s' }, Worker.obs s')
+        | none => (st, "disabled " ++ Worker.obs st.s)
+      | none => (st, "disabled " ++ Worker.obs st.s)
+    | _, _ => (st, "bad-op")
   | "schedfan" :: args =>
     -- EnableScheduleBindings over the bindings the loader produced, then HandleEvent for one crontab:
     -- the (binding, queue) infos, sorted (Go walks the map in any order)
